@@ -1,6 +1,8 @@
-(* C19 - executable model of votelib/persist.py: serialize_value, deserialize_value,
-   deserialize_typed, deserialize_class, from_dict, and of what json.dumps/json.loads does to a
-   serialised value.  Models only - proofs are in Proofs/Persist_proofs.v.
+(* C19 - executable model of votelib/persist.py: serialize_value (after fixes/C19-persist-rejects.diff:
+   [ser_fixed] / [serialize_value], inside the environment section because names are resolved at save
+   time; before it: [ser] / [serialize_value_pinned]), deserialize_value, deserialize_typed,
+   deserialize_class, from_dict, and of what json.dumps/json.loads does to a serialised value.
+   Models only - proofs are in Proofs/Persist_proofs.v and Proofs/PersistRejects_proofs.v.
 
    Strings are lists of code points.  What the model cannot contain is an oracle argument
    (record [env]): the Unicode identifier tables beyond ASCII, Decimal(str) (the parser of the
@@ -185,7 +187,7 @@ Fixpoint str_keys (d : list (pval * pval)) : option (list (str * pval)) :=
   | _ :: _ => None
   end.
 
-(* ---------------------------------------------------------------- serialize_value *)
+(* ---------------------------------------------------------------- serialize_value (pinned tree) *)
 (* [tup]: whether Fraction.as_integer_ratio() is still a tuple (true: the value as returned by
    to_dict; false: after json.loads(json.dumps(.))) *)
 Fixpoint ser (tup : bool) (v : pval) : sres :=
@@ -255,7 +257,7 @@ Record env := {
   xid_start : Z -> bool;            (* str.isidentifier tables for code points >= 128 *)
   xid_continue : Z -> bool;
   dec_canon : str -> option str;    (* str(Decimal(s)), None = decimal.InvalidOperation *)
-  class_exists : str -> bool;       (* get_object(name) finds something *)
+  class_exists : str -> bool;       (* get_object(name) finds the class so named (at save time: it is type(value)) *)
   class_accepts : str -> list str -> bool;   (* ... and it can be called with these keyword names *)
   callable_resolves : str -> bool;  (* get_object(name) finds the function again *)
 }.
